@@ -27,7 +27,7 @@ type fakeS3 struct {
 	mu      sync.Mutex
 	objects map[string][]byte // "bucket/key" -> body
 	srv     *httptest.Server
-	log     []string // "METHOD key"
+	log     []string       // "METHOD key"
 	failGet map[string]int // key -> status to answer instead (fault injection)
 }
 
